@@ -20,6 +20,7 @@ WEAK = [
     ("Weak_IgnoreMissingRemoval", "update", None),
     ("Weak_NoResort", "update", None),
     ("Weak_NoPenalty", "update", "CaseMatchesRef"),
+    ("Weak_PenaltyMulOverflow", "update", "CaseMatchesRef"),
     ("Weak_NoRescale", "update", None),
     ("Weak_NoCentre", "update", None),
     ("Weak_FloorDiv", "update", "CaseMatchesRef"),
@@ -312,7 +313,7 @@ def run(ctx):
     # ---- 4. trace validation (TLC on observed behaviour) -----------------------------------
     vals = {}
     for name, rows, me in (("cases", rows_t["cases"], 1500), ("rotate", rows_t["rotate"], 1200),
-                           ("hist", rows_t["hist"], 1500), ("extreme", rows_t["extreme"], 2000),
+                           ("hist", rows_t["hist"], 1500), ("extreme", rows_t["extreme"], 350),
                            ("store", rows_s, 1000)):
         vals[name] = core.validate_traces(ctx, TRACE, rows, max_events=me, label=name, timeout=1500)
 
@@ -396,9 +397,13 @@ def run(ctx):
     rc = verdict.finish()
     ctx.write_evidence(coverage, [
         "addresses are ranks in a pool of real ed25519 keys sorted by address (order-preserving, injective)",
-        "TLC integers are 32 bit: exact priorities are judged for powers up to 10^6; for powers near "
-        "MaxTotalVotingPower only order, limits, window, centring, clipping, atomicity, order-independence and the "
-        "acceptance/membership/powers of the result are judged (limb arithmetic), not the priority values",
+        "TLC integers are 32 bit: runs with powers up to 10^6 are judged with TLC integers against the code "
+        "transcription and the reference; runs with powers near MaxTotalVotingPower (half of them directed: total in "
+        "the top 15% of the range, batches that ADD validators or swap a huge validator for newcomers, then round-by-"
+        "round rotation) are logged as 24-bit limbs and judged EXACTLY with limb arithmetic (compare/add/subtract/long "
+        "division): acceptance, members, powers, the priorities after the update (newcomers at -(T + floor(T/8)), rescale, "
+        "centre), order, limits, window, clipping, atomicity, order-independence and the rotation incl. the proposer "
+        "against the reference; only the code-transcription (level 1) comparison is not made at that scale",
         "the spec models LoadValidators as repaired by proposed-fixes/C08-loadvalidators-per-height-increment.diff "
         "(one IncrementProposerPriority(1) per block); the code as found is the switch Weak_LoadSingleIncrement",
         "the model's checkpoint interval is 3..5; the real interval 100000 is exercised through chains whose "
